@@ -27,12 +27,14 @@ try:
     r = sh(["cargo", "test", "-p", "tera", "--offline", "--test", "mutant_demo"] + feat, timeout=600)
     conf["demo_with_change"] = "fails" if r.returncode != 0 else "passes"
     conf["demo_with_change_tail"] = r.stdout.strip().splitlines()[-6:]
-    sh(["git", "stash", "push", "--", "tera/src"])
+    # (not `git stash`: the stash is shared by all worktrees of a repository)
+    patch = os.path.join(wt, "MUTANT", "patch.diff")
+    sh(["git", "apply", "-R", patch])
     try:
         r = sh(["cargo", "test", "-p", "tera", "--offline", "--test", "mutant_demo"] + feat, timeout=600)
         conf["demo_without_change"] = "passes" if r.returncode == 0 else "fails"
     finally:
-        sh(["git", "stash", "pop"])
+        sh(["git", "apply", patch])
 finally:
     os.remove(demo_dst)
 conf["ok"] = bool(conf["baseline_default_features_pass"] and conf["baseline_glob_fs_pass"] and conf["demo_with_change"] == "fails" and conf.get("demo_without_change") == "passes")
